@@ -40,6 +40,7 @@ type concReq struct {
 	tuple *ketoapi.RelationTuple
 	depth int
 	run   func(e *env) string
+	alone func(e *env) string // if set: what the request must answer, computed from simpler requests run alone
 }
 
 func engineOpts(nss []*namespace.Namespace, strict, useOPL bool, gdepth, width int) []driver.TestRegistryOption {
@@ -103,7 +104,7 @@ func listAll(e *env, v url.Values, size int) string {
 	return fmt.Sprintf("%d:%s", len(all), hx(strings.Join(all, "|")))
 }
 
-func concRequests(r *rng, nss []*namespace.Namespace) []*concReq {
+func concRequests(r *rng, nss []*namespace.Namespace, motifQ []*ketoapi.RelationTuple) []*concReq {
 	var reqs []*concReq
 	var qs []*ketoapi.RelationTuple
 	for i := 0; i < 20; i++ {
@@ -111,6 +112,9 @@ func concRequests(r *rng, nss []*namespace.Namespace) []*concReq {
 		rd := 0
 		if r.chance(1, 4) {
 			rd = r.intn(11) - 3
+		}
+		if i < len(motifQ) {
+			q, rd = motifQ[i], 0
 		}
 		qs = append(qs, q)
 		q2, rd2 := q, rd
@@ -143,28 +147,74 @@ func concRequests(r *rng, nss []*namespace.Namespace) []*concReq {
 		}
 	}
 	// batch checks over subsets (the per-tuple result slots)
-	for i := 0; i < 2; i++ {
+	singles := func(e *env, sub []*ketoapi.RelationTuple) string { // what the entries answer one by one
+		var sb strings.Builder
+		for _, q := range sub {
+			switch o := checkVia(e, q, 0); {
+			case o == "is 0":
+				sb.WriteString("1;")
+			case strings.HasSuffix(o, " 0"):
+				sb.WriteString("0;")
+			default:
+				sb.WriteString("0e;")
+			}
+		}
+		return "200 " + sb.String()
+	}
+	for i := 0; i < 3; i++ {
 		var sub []*ketoapi.RelationTuple
 		for j := 0; j < 3+r.intn(8); j++ {
-			sub = append(sub, qs[r.intn(len(qs))])
+			if i == 0 && len(motifQ) > 0 { // entries that walk the same subject sets
+				sub = append(sub, motifQ[r.intn(len(motifQ))])
+			} else {
+				sub = append(sub, qs[r.intn(len(qs))])
+			}
 		}
 		body, _ := json.Marshal(map[string]interface{}{"tuples": sub})
-		reqs = append(reqs, &concReq{kind: "batch", desc: fmt.Sprintf("conc batch %d %s", len(sub), fmtTuple(sub[0])), run: func(e *env) string {
+		sub2 := sub
+		reqs = append(reqs, &concReq{kind: "batch", desc: fmt.Sprintf("conc batch %d %s", len(sub), fmtTuple(sub[0])), alone: func(e *env) string { return singles(e, sub2) }, run: func(e *env) string {
 			code, b := rest(e.read, "POST", "/relation-tuples/batch/check", body)
-			return fmt.Sprintf("%d %s", code, hx(strings.TrimSpace(string(b))))
+			var rb struct {
+				Results []struct {
+					Allowed bool   `json:"allowed"`
+					Error   string `json:"error"`
+				} `json:"results"`
+			}
+			if code != 200 || json.Unmarshal(b, &rb) != nil {
+				return fmt.Sprintf("%d", code)
+			}
+			var sb strings.Builder
+			for _, x := range rb.Results {
+				switch {
+				case x.Error != "":
+					sb.WriteString("0e;")
+				case x.Allowed:
+					sb.WriteString("1;")
+				default:
+					sb.WriteString("0;")
+				}
+			}
+			return "200 " + sb.String()
 		}})
 		preq := &rts.BatchCheckRequest{}
 		for _, q := range sub {
 			preq.Tuples = append(preq.Tuples, tupleToProto(q))
 		}
-		reqs = append(reqs, &concReq{kind: "gbatch", desc: fmt.Sprintf("conc gbatch %d %s", len(sub), fmtTuple(sub[0])), run: func(e *env) string {
+		reqs = append(reqs, &concReq{kind: "gbatch", desc: fmt.Sprintf("conc gbatch %d %s", len(sub), fmtTuple(sub[0])), alone: func(e *env) string { return singles(e, sub2) }, run: func(e *env) string {
 			resp, err := rts.NewCheckServiceClient(e.rconn).BatchCheck(context.Background(), preq)
 			if err != nil {
 				return fmt.Sprintf("%d", grpcCode(err))
 			}
 			var sb strings.Builder
 			for _, x := range resp.Results {
-				fmt.Fprintf(&sb, "%v/%s;", x.Allowed, hx(x.Error))
+				switch {
+				case x.Error != "":
+					sb.WriteString("0e;")
+				case x.Allowed:
+					sb.WriteString("1;")
+				default:
+					sb.WriteString("0;")
+				}
 			}
 			return "200 " + sb.String()
 		}})
@@ -233,16 +283,22 @@ func suiteConc(t *testing.T, cfg cfgT) {
 		eeA := &engineEnv{e: a, pool: pool, nss: nss, strict: strict, gdepth: 60, width: 100}
 		eeA.header(out)
 		eeA.insert(t, egTuples(hr, nss, 6+hr.intn(20), strict || hr.chance(1, 2)))
-		if !strict && hr.chance(1, 2) {
-			mt, _ := egMotif(hr, nss)
+		var motifQ []*ketoapi.RelationTuple
+		if !strict && hr.chance(2, 3) {
+			var mt []*ketoapi.RelationTuple
+			mt, motifQ = egMotif(hr, nss)
 			eeA.insert(t, mt)
 		}
 		eeA.table(out)
-		reqs := concRequests(hr, nss)
+		reqs := concRequests(hr, nss, motifQ)
 		// alone, on the warm registry
 		alone := make([]string, len(reqs))
 		for i, q := range reqs {
-			alone[i] = q.run(a)
+			if q.alone != nil {
+				alone[i] = q.alone(a)
+			} else {
+				alone[i] = q.run(a)
+			}
 		}
 		// concurrently, on a cold registry over the same database
 		b := newEnvDSN(t, &dbx.DsnT{Name: dsn.Name, Conn: dsn.Conn}, opts...)
